@@ -369,7 +369,48 @@ GLOBAL_SETTERS = {"np.seterr": "np.errstate / try-finally", "numpy.seterr": "np.
                   "os.chdir": "try-finally", "os.putenv": "-"}
 
 
+ATOM_VALUE_CLASSES = (("src/scinumtools/solver/atom.py", "AtomBase"), ("src/scinumtools/units/unit_solver.py", "Atom"))
+
+
+def _atoms_are_values(ctx):
+    """An atom may outlive the solve that produced it (custom atom factories keep objects per name; the DIP solvers hand
+    out node copies).  Operators on atoms therefore build a new atom: no operator method of an atom class assigns to a
+    field of self, writes into a container reached from self, or returns self."""
+    n = 0
+    for rel, cname in ATOM_VALUE_CLASSES:
+        c = ctx.repo.cls(rel, cname)
+        for mname, fn in methods(c).items():
+            if mname in ("__init__", "__new__", "__post_init__", "__str__", "__repr__", "__enter__", "__exit__") or mname.startswith("_") and not mname.startswith("__"):
+                continue
+            n += 1
+            me = fn.args.args[0].arg if fn.args.args else "self"
+            bad = []
+            aliases = {me}
+            for a in ast.walk(fn):
+                if isinstance(a, ast.Assign) and len(a.targets) == 1 and isinstance(a.targets[0], ast.Name) and isinstance(a.value, ast.Attribute) and isinstance(a.value.value, ast.Name) \
+                        and a.value.value.id == me:
+                    aliases.add(a.targets[0].id)      # x = self.field : a reference, not a copy
+            for a in ast.walk(fn):
+                if isinstance(a, (ast.Attribute, ast.Subscript)) and isinstance(a.ctx, (ast.Store, ast.Del)):
+                    base = a.value
+                    while isinstance(base, (ast.Attribute, ast.Subscript)):
+                        base = base.value
+                    if isinstance(base, ast.Name) and base.id in aliases and not (isinstance(a, ast.Attribute) and a.value is base and base.id != me):
+                        bad.append(f"{norm(a)} = ...")
+                if isinstance(a, ast.Return) and isinstance(a.value, ast.Name) and a.value.id == me and not mname.startswith("__i"):
+                    bad.append("return " + me)
+            what = "operators on atoms build new atoms (they neither change nor return their left operand)"
+            if bad:
+                ctx.violated(rel, f"{cname}.{mname}", what, detail=sorted(set(bad))[:3], expected=f"return {cname}(<new value>)")
+            else:
+                ctx.holds(rel, f"{cname}.{mname}", what)
+    ctx.floor("atom operator methods", n, 20)
+
+
 def r4_no_process_state(ctx):
+    _atoms_are_values(ctx)
+    from . import C16 as _C16
+    _C16.r9_deep_copies(ctx)      # node copies handed to the logical/numerical atom factories are deep: a comparison converts its operand in place
     """A solve leaves nothing behind outside its own instance: no module-level container of the solver package is
     written from a function, no function is memoised, and an interpreter-wide setting (NumPy error mode, warning
     filters, recursion limit, locale, random seed, decimal context) is changed only under a construct that restores it
